@@ -25,7 +25,7 @@ pub const SEL_CLASSES: u8 = 8;
 
 sx_enum! {
     #[derive(Clone, Copy, Debug, PartialEq, Eq)]
-    pub enum AccKind { FindBorrow, IterBorrow, BorrowComp, BorrowSlice, CloneWorld, DoubleFind, DoubleIter, CloneArch }
+    pub enum AccKind { FindBorrow, IterBorrow, BorrowComp, BorrowSlice, CloneWorld, DoubleFind, DoubleIter, CloneArch, CloneFromWorld, CloneFromArch }
 }
 
 sx_struct! {
